@@ -49,7 +49,14 @@ def delta(q, sym):
 def c16a(ctx, tu):
     roots = tu.need(A["dispatch"], 5)
     ex = Explorer(tu, classify_factory(tu), delta=delta)
+    n_live = 0
     for f in roots:
+        # a signature for which the unit never creates an expectation has no overrider of the pure virtual
+        # run_actions: its accepted path cannot be taken (find() has nothing to return) and carries no facts
+        ra = [e for b, e in f.events() if e["e"] == "call" and qe(e) == A["run_actions_base"]]
+        if ra and not any(tu.fns[t].has_body for e in ra for t in tu.targets(e) if t in tu.fns):
+            continue
+        n_live += 1
         exits, terms = ex.explore(f, (0, False, None))
         if not exits:
             ctx.ob("C16.a", A["dispatch"], None, pattern=f.pat, unit=tu.name,
@@ -75,6 +82,10 @@ def c16a(ctx, tu):
         ctx.ob("C16.a.excl", A["dispatch"], bad is None, pattern=f.pat, unit=tu.name, inst=f.q,
                detail="" if bad is None else bad[0],
                witness=None if bad is None else {"entry": f.q, "path": fmt_trace(bad[1])})
+    if n_live == 0 and not tu.is_corpus:
+        return ex
+    if n_live == 0:
+        raise lib.AnalysisBroken("C16.a: no dispatch instantiation with an instantiated expectation type in " + tu.name)
     ctx.sample({"rule": "C16.a", "root": roots[0].q, "automaton": "states (ok in 0,1,2+; acted; flag); "
                 "every normal exit must have ok=1 and OK before the first side effect / return handler; "
                 "every path ending in a fatal report must have ok=0",
